@@ -148,6 +148,7 @@ package registry
 //@   safety C19
 //@   modifies A:string#
 //@   requires lvl >= 0 && p.pkg != nil
+//@   axiom universe-scope: global("go/types.Universe") != nil
 //@   loop 1 invariant idx: ix >= 0
 //@   loop 1 decreases min2(len(pp), lvl + 1) - ix
 //@ define min2(a, b) = ite(a < b, a, b)
